@@ -1,5 +1,6 @@
 import Fabio.Generated.C07
 import Fabio.Model.C07
+import Fabio.Lemmas.C07
 /-!
 `escapedLen` (proxy/http_proxy.go) — the one piece of sequential byte code of C07's URL construction — is translated
 from the CURRENT source on every run by `tools/factgen/xlate.go` into `Generated.C07.XEscapedLen` (state structure,
@@ -117,6 +118,23 @@ theorem xescapedLen_eq_model (s : B) (n : Int) (hs : (s.length : Int) + 3 < 9223
       simp [XEscapedLen.run, Fabio.Xlate.run, body, seq, assign, loop, hrun, ifS, len, hg, ret, skip]
     have hle : i' ≤ (s.length : Int) := by omega
     exact ⟨i', _, hr, hi', hle, hd⟩
+
+/-- **xescapedLen_count.** What the translated `escapedLen` cuts off stands for exactly `n` decoded bytes — all of them
+when the path has fewer — in the specification's own way of counting (`decodedCount`, the predicate `c07.esclen`
+evaluates on the real function's result). -/
+theorem xescapedLen_count (s : B) (n : Int) (hs : (s.length : Int) + 3 < 9223372036854775808)
+    (hn : n < 9223372036854775808) :
+    ∃ r st, XEscapedLen.run { p0 := s, p1 := n } = .ok (r, st) ∧ 0 ≤ r ∧ r ≤ s.length ∧
+      Model.C07Spec.decodedCount (s.take r.toNat) = min n.toNat (Model.C07Spec.decodedCount s) := by
+  obtain ⟨r, st, hrun, h0, hle, hd⟩ := xescapedLen_eq_model s n hs hn
+  obtain ⟨a, ha, hc⟩ := Lemmas.C07.dropEscaped_count n.toNat s
+  refine ⟨r, st, hrun, h0, hle, ?_⟩
+  have : a = s.take r.toNat := by
+    have h1 : s.take r.toNat ++ s.drop r.toNat = a ++ s.drop r.toNat := by
+      rw [List.take_append_drop, hd]; exact ha
+    exact (List.append_cancel_right h1).symm
+  rw [← this]; exact hc
+
 
 /-- non-vacuity: `/%73trip/a%2Fb` with `n = 6` (the length of `/strip`) on the translated code -/
 example : (match XEscapedLen.run { p0 := "/%73trip/a%2Fb".toUTF8.toList, p1 := 6 } with
